@@ -48,3 +48,11 @@ Ltac sp_steps :=
   first [ rewrite sp_point_head_lt by cmp_tac | rewrite sp_point_below_first by cmp_tac ];
   repeat first [ rewrite sp_from_step_lt by cmp_tac | rewrite sp_from_step_ge by cmp_tac ].
 Ltac sp_point_interval := sp_steps; cbv [seg last_seg lin]; interval with (i_prec 80).
+
+(* the CALL spreading_pressure_at (range guard + value) on concrete rows:
+     Goal sp_point_at [rows] p = CalculationError.                                   (sp_point_refused)
+     Goal exists v, sp_point_at [rows] p = Value v /\ Rabs (v - value) <= tol.       (sp_point_answered) *)
+Ltac inc_tac := cbv [increasing increasing_from]; repeat split; cmp_tac.
+Ltac last_tac := cbv [last_pressure last_from]; cmp_tac.
+Ltac sp_point_refused := apply sp_point_at_above; [inc_tac | last_tac].
+Ltac sp_point_answered := eexists; split; [apply sp_point_at_value; [inc_tac | last_tac] | sp_point_interval].
